@@ -278,7 +278,7 @@ def dense_cases(rng, n):
     """family `dense` (mutation audit 2026-09-22): fully populated, well conditioned symmetric tensors — every
     off-diagonal entry of the dimension is >= 0.2 in magnitude, the eigenvalues are pairwise >= 0.3 apart, entries O(1).
     No solver has a known finding on this family, so (a) the documented coarse tolerances apply with fresh keys
-    `residual:<solver>/N<d>:dense`, and (b) the accuracy every solver reaches on the clean tree (<= 3e-14, measured
+    `residual:<solver>/N<d>:dense`, and (b) the accuracy every solver reaches on the clean tree (<= 4e-14, measured
     over 40 seeds x 12 tensors) is checked with a 100x margin under the keys `accuracy:<solver>/N<d>:dense`."""
     cases = []
     for N in (2, 3):
@@ -298,8 +298,8 @@ def dense_cases(rng, n):
     return cases
 
 
-# accuracy reached by every solver on the `dense` family (relative residuals): clean maximum 2.6e-14 => bound 3e-12
-ACCURACY_DENSE = 3e-12
+# accuracy reached by every solver on the `dense` family (relative residuals): clean maximum 3.8e-14 over 40 seeds => bound 5e-12
+ACCURACY_DENSE = 5e-12
 
 
 def residuals(ck, binary, cases):
@@ -397,7 +397,7 @@ def run(ck):
             N, m = byid[cid]
             what = ("non finite eigenvalues/eigenvectors" if key.startswith("nonfinite")
                     else ("residual %.3g >= %.0e, the accuracy bound of every solver on well conditioned dense tensors "
-                          "(clean tree: <= 3e-14)" % (val, ACCURACY_DENSE) if key.startswith("accuracy")
+                          "(clean tree: <= 4e-14)" % (val, ACCURACY_DENSE) if key.startswith("accuracy")
                           else "residual %.3g >= tolerance %.0e" % (val, TOL[solver])))
             keys_fired.append(key)
             ck.violation(key,
